@@ -71,6 +71,8 @@ def cases(tier, seed):
         n_in = R.choice([2, 3, 5])
         add("mtan", R.randrange(n_in), n_inputs=n_in, big=(i % 2 == 0), par=R.choice([1, 2, 4]) if i else 2)
         add("mwcs", R.randrange(n_in), n_inputs=n_in, how=R.choice(["reproject", "update"]), par=R.choice([1, 2, 4]) if i else 2)
+        # the error happens while an input image is being LOADED (in the dispatching process), not in a worker
+        add(R.choice(["mtan", "mwcs"]), R.randrange(n_in), n_inputs=n_in, how="load", par=R.choice([2, 4]))
     # late failures: the item fails only after a delay that outlasts every (dilated) queue time-out, so that the failing
     # worker is the last one alive, and systematic failures: EVERY item fails (after a short delay), so that all workers die
     # while the producer is still enqueueing
@@ -191,6 +193,24 @@ def _stage_fn(spec, workdir):
         pio = LoggingPIO(os.path.join(workdir, "out"), default_format="fits")
         b = Builder(pio)
         coll = SimpleFitsCollection(paths)
+        if spec.get("how") == "load":
+            class FailingCollection(SimpleFitsCollection):
+                def images(self):
+                    for k, img in enumerate(SimpleFitsCollection.images(self)):
+                        if k == item:
+                            evlog.ev("fault_injected", input=item, where="load")
+                            raise E("injected failure while loading input image %d" % item)
+                        yield img
+
+            coll = FailingCollection(paths)
+        if st == "mtan" and spec.get("how") == "load":
+            proc = MultiTanProcessor(coll)
+            proc.compute_global_pixelization(b)
+            return (lambda: proc.tile(pio, parallel=par)), "producer"
+        if st == "mwcs" and spec.get("how") == "load":
+            proc = MultiWcsProcessor(coll)
+            proc.compute_global_pixelization(b)
+            return (lambda: proc.tile(pio, lambda inp, output_projection=None, shape_out=None, return_footprint=False, **kw: np.full(shape_out, 1.0), parallel=par)), "producer"
         if st == "mtan":
             proc = MultiTanProcessor(coll)
             proc.compute_global_pixelization(b)
